@@ -42,6 +42,7 @@ let read_pin t : vinput =
   let wit = if next_int t = 1 then Some (read_txout_sv t) else None in
   let redeem = next_opt t in
   let ws = next_opt t in
+  let _declared_sighash_type = next t in   (* PInput.SighashType: not read by the validator *)
   let sigs = next_list t (fun t ->
     if next_int t = 1 then begin
       let pub = next_opt t in
